@@ -3,7 +3,6 @@
 package main
 
 import (
-	"bufio"
 	"bytes"
 	"context"
 	"errors"
@@ -11,6 +10,7 @@ import (
 	"os"
 
 	"github.com/allegro/bigcache/v3"
+	carv2 "github.com/ipld/go-car/v2"
 	"github.com/rpcpool/yellowstone-faithful/compactindexsized"
 	hugecache "github.com/rpcpool/yellowstone-faithful/huge-cache"
 	"github.com/rpcpool/yellowstone-faithful/indexes"
@@ -42,6 +42,86 @@ func c01NewCache() *hugecache.Cache {
 	c, err := hugecache.NewWithConfig(context.Background(), bigcache.Config{})
 	verifAssert(err == nil && c != nil, "C01: cache construction failed")
 	return c
+}
+
+var c01ReadCarPath string
+
+func c01Model_carv2DataReader(r *carv2.Reader) (carv2.SectionReader, error) {
+	verifAssert(r != nil && r.Version == 1, "C01.read: DataReader on a reader the harness did not create")
+	if c01Far != nil {
+		return &c01FarFile{c01Far.base, c01Far.content, 0, 0, false}, nil
+	}
+	return os.Open(c01ReadCarPath)
+}
+
+// c01FarFile is a window of a huge CAR file: content sits at the (symbolic) absolute offset base.
+// It serves ReadAt / Seek+Read only at that offset and asserts that this is where the server reads
+// (real epoch CARs are hundreds of GiB: offsets beyond 2^32 cannot be built as memfs files).
+type c01FarFile struct {
+	base     uint64
+	content  []byte
+	seekTo   int64
+	consumed int
+	sought   bool
+}
+
+var c01Far *c01FarFile
+
+func (f *c01FarFile) ReadAt(p []byte, off int64) (int, error) {
+	verifAssert(off >= 0 && uint64(off) == f.base, "C01.read.far: the server reads the CAR at an offset that is not the recorded offset")
+	n := copy(p, f.content)
+	if n < len(p) {
+		return n, io.EOF
+	}
+	return n, nil
+}
+
+func (f *c01FarFile) Seek(off int64, whence int) (int64, error) {
+	verifAssert(whence == io.SeekStart, "C01.read.far: the harness file model only supports absolute seeks")
+	f.seekTo, f.sought, f.consumed = off, true, 0
+	return off, nil
+}
+
+func (f *c01FarFile) Read(p []byte) (int, error) {
+	verifAssert(f.sought && f.seekTo >= 0 && uint64(f.seekTo) == f.base, "C01.read.far: the server reads the CAR sequentially from an offset that is not the recorded offset")
+	if f.consumed >= len(f.content) {
+		return 0, io.EOF
+	}
+	n := copy(p, f.content[f.consumed:])
+	f.consumed += n
+	return n, nil
+}
+
+func (f *c01FarFile) Close() error { return nil }
+
+// C01.read.far — the same server lookups for a section that lies at an arbitrary 48-bit offset
+// of the CAR (the recorded offset travels through the real index value codec): every read of the
+// CAR happens exactly at the recorded offset (no narrowing or sign trouble beyond 2^31 / 2^32)
+// and returns exactly the object's bytes, through the ReaderAt branch and the local-file branch.
+func VerifC01ReadFar() {
+	dl := c01DataLens[verifChoice("datalen", verifParam("nlens", 4))]
+	data := verifBytes("data", dl)
+	sec := c01Section(c01CidBytes(0), data)
+	base := verifU64("offset")
+	verifAssume(base <= indexes.MaxUint48)
+	c01Far = &c01FarFile{base: base, content: append(append([]byte{}, sec...), verifBytes("after", 40)...)}
+	w := &indexes.CidToOffsetAndSize_Writer{}
+	verifAssert(w.Put(c01Cid(0), base, uint64(len(sec))) == nil, "C01.read.far: Put failed")
+	ep := &Epoch{config: &Config{}, cidToOffsetAndSizeIndex: &indexes.CidToOffsetAndSize_Reader{}, allCache: c01NewCache()}
+	if verifChoice("carFrom", 2) == 0 {
+		ep.remoteCarReader = c01Far
+	} else {
+		ep.localCarReader = &carv2.Reader{Version: 1}
+	}
+	ctx := context.Background()
+	oas, err := ep.FindOffsetAndSizeFromCid(ctx, c01Cid(0))
+	verifAssert(err == nil && oas != nil, "C01.read.far: the CID does not resolve")
+	verifAssert(oas.Offset == base && oas.Size == uint64(len(sec)), "C01.read.far: the resolved offset/size is not what was recorded")
+	got, err := ep.GetNodeByCid(ctx, c01Cid(0))
+	verifAssert(err == nil && bytes.Equal(got, data), "C01.read.far: GetNodeByCid does not return the object's bytes")
+	raw, err := ep.ReadAtFromCar(ctx, oas.Offset, oas.Size)
+	verifAssert(err == nil && bytes.Equal(raw, sec), "C01.read.far: ReadAtFromCar does not return the raw section")
+	verifReach("end")
 }
 
 // payload lengths around the 1/2/3-byte length-prefix boundaries (36-byte CID)
@@ -104,14 +184,22 @@ func VerifC01Read() {
 	raw, err := ep.ReadAtFromCar(ctx, oas.Offset, oas.Size)
 	verifAssert(err == nil && bytes.Equal(raw, sec), "C01.read: ReadAtFromCar does not return the raw section")
 
-	// local-file branch of GetNodeByOffsetAndSize after DataReader().Seek(offset) (carv2 I/O is cut)
-	f2, _ := os.Open(path)
-	_, err = f2.Seek(int64(oas.Offset), io.SeekStart)
-	verifAssert(err == nil, "C01.read: seek")
-	want := c01Cid(0)
-	got, err := readNodeWithKnownSize(bufio.NewReader(f2), &want, oas.Size)
-	verifAssert(err == nil && bytes.Equal(got, data), "C01.read: readNodeWithKnownSize does not return the object's bytes")
-	got, err = readNodeWithKnownSize(bufio.NewReader(bytes.NewReader(sec)), nil, oas.Size)
-	verifAssert(err == nil && bytes.Equal(got, data), "C01.read: readNodeWithKnownSize (no wanted CID) does not return the object's bytes")
+	// the same lookups with the CAR served from a local file (carv2 reader; its DataReader is a
+	// model handing out a read/seek handle on the file's bytes)
+	c01ReadCarPath = path
+	lep := &Epoch{
+		config:                  &Config{},
+		localCarReader:          &carv2.Reader{Version: 1},
+		cidToOffsetAndSizeIndex: &indexes.CidToOffsetAndSize_Reader{},
+		allCache:                c01NewCache(),
+	}
+	got, err := lep.GetNodeByCid(ctx, c01Cid(0))
+	verifAssert(err == nil && bytes.Equal(got, data), "C01.read: GetNodeByCid (local CAR file) does not return the object's bytes")
+	_, err = lep.GetNodeByOffsetAndSize(ctx, &wrong, oas)
+	verifAssert(err != nil, "C01.read: (local CAR file) a section whose CID differs from the wanted CID is returned")
+	got, err = lep.GetNodeByOffsetAndSize(ctx, nil, oas)
+	verifAssert(err == nil && bytes.Equal(got, data), "C01.read: GetNodeByOffsetAndSize without a wanted CID (local CAR file) does not return the object's bytes")
+	raw, err = lep.ReadAtFromCar(ctx, oas.Offset, oas.Size)
+	verifAssert(err == nil && bytes.Equal(raw, sec), "C01.read: ReadAtFromCar (local CAR file) does not return the raw section")
 	verifReach("end")
 }
